@@ -20,7 +20,8 @@ Lock = HeapClass('RLock', 'record', fields={})
 Chunks = HeapClass('BytesList', 'list', e=STR)
 Chunks.fields['cat'] = STR
 BS = HeapClass('BufferedSocket', 'record', pyclass='BufferedSocket',
-               fields=dict(sock=REF(Sock), rbuf=STR, _recvsize=INT, timeout=REAL, _recv_lock=REF(Lock)))
+               fields=dict(sock=REF(Sock), rbuf=STR, _recvsize=INT, timeout=REAL, _recv_lock=REF(Lock),
+                           sbuf=REF(Chunks), _send_lock=REF(Lock)))
 CLASSES = {'BufferedSocket': BS}
 ALL = [Sock, Lock, Chunks, BS]
 UNSET = z3.Const('_UNSET', Val)
@@ -56,6 +57,30 @@ def ext_recv(eng, args, kwargs, st, node):
     return out
 
 
+def ext_send(eng, args, kwargs, st, node):
+    """sock.send(data): some prefix of data (possibly all, possibly nothing) goes onto the wire, its length is returned;
+    or socket.timeout / another socket error is raised and nothing was sent"""
+    data = args[1]
+    if not isinstance(data, SStr):
+        raise Exception('send data')
+    out = []
+    s1 = st.copy()
+    sent = s1.fresh.const('sent', z3.IntSort())
+    s1 = s1.assume(z3.And(sent >= 0, sent <= z3.Length(data.t)))
+    s1.ghost['wire'] = z3.Concat(st.ghost['wire'], z3.SubString(data.t, 0, sent))
+    s1.note('send puts a prefix on the wire')
+    out.append((SInt(sent), s1))
+    s2 = st.copy()
+    s2.note('send raises socket.timeout')
+    out.append((SExc('timeout'), s2))
+    s3 = st.copy()
+    s3.note('send raises a socket error')
+    out.append((SExc('OSError'), s3))
+    eng.trusted.add('socket.send(data): returns k with 0 <= k <= len(data) after putting data[:k] on the wire, or raises '
+                    'socket.timeout / OSError having sent nothing')
+    return out
+
+
 def ext_settimeout(eng, args, kwargs, st, node):
     return [(SNone(), st)]
 
@@ -75,7 +100,7 @@ def ext_join(eng, args, kwargs, st, node):
     return [(SStr(eng.hload(st, lst, 'cat')), st)]
 
 
-EXTERNALS = {'method:RawSocket.recv': ext_recv, 'method:RawSocket.settimeout': ext_settimeout, 'time.time': ext_time,
+EXTERNALS = {'method:RawSocket.recv': ext_recv, 'method:RawSocket.send': ext_send, 'method:RawSocket.settimeout': ext_settimeout, 'time.time': ext_time,
              'socket.timeout': ext_sock_timeout, 'strmethod:join': ext_join}
 
 
@@ -241,3 +266,126 @@ for _c in [peek, recv_close]:
     _c.ghost_mod = ['pending']
     CONTRACTS[_c.qualname] = _c
 FUNCS += [('BufferedSocket.peek', ['timeout']), ('BufferedSocket.recv_close', ['timeout'])]
+
+
+# ---- send side: send / sendall / flush / buffer -----------------------------------------------------------------------------
+# Ghost `wire` = every byte handed to the operating system so far, in order.  The send buffer is a Python list of byte
+# strings; its ghost field `cat` is the concatenation of its items, maintained by the engine on append / lst[:] = [...] /
+# one-element item store, and `b''.join([s for s in lst if s])` evaluates to it.
+# Conservation (the property): at every exit, normal or exceptional,   wire' ++ cat(sbuf') == wire ++ cat(sbuf) ++ data.
+def send_setup(eng, st, variant):
+    st.ghost['wire'] = z3.String('wire0')
+    d = dict(self=SRef(BS, z3.Int('self')), data=SStr(z3.String('arg_data')), flags=SInt(z3.Int('arg_flags')), timeout=SVal(UNSET))
+    eng.field_consts = {}
+    if variant == 'notimeout':
+        eng.field_consts[('BufferedSocket', 'timeout')] = SNone()
+    return d
+
+
+def sbuf_of(c, st=None):
+    return SRef(Chunks, c.f(c.sv('self'), 'sbuf', st or c.st))
+
+
+def sbuf_rep(c, st=None):
+    """what is known of a concatenation-tracked list without unfolding the concatenation"""
+    st = st or c.st
+    b = sbuf_of(c, st)
+    n, cat, el = c.f(b, 'len', st), c.f(b, 'cat', st), c.f(b, 'elems', st)
+    return z3.And(n >= 0, z3.Implies(n == 0, cat == E), z3.Implies(n == 1, z3.Select(el, 0) == cat))
+
+
+def send_req(c):
+    s, b = c.sv('self'), sbuf_of(c)
+    return [('objects', z3.And(s.t >= 1, s.t < c.st.alloc, b.t >= 1, b.t < c.st.alloc)),
+            ('send buffer representation', sbuf_rep(c))]
+
+
+def owed(c, with_data=True):
+    """everything that has to reach the peer: what was on the wire, what was buffered, and the new data"""
+    parts = [c.og('wire'), c.f(sbuf_of(c, c.old), 'cat', c.old)]
+    if with_data:
+        parts.append(c.a('data'))
+    return z3.Concat(*parts)
+
+
+def send_inv(c):
+    b = c.Lsv('sbuf')
+    return [('sbuf is the send buffer of self, holding one item', z3.And(b.t == sbuf_of(c).t, b.t == sbuf_of(c, c.old).t, c.f(b, 'len') == 1,
+                                                                      z3.Select(c.f(b, 'elems'), 0) == c.f(b, 'cat'))),
+            ('conservation: wire ++ unsent == wire0 ++ buffered0 ++ data', z3.Concat(c.g('wire'), c.f(b, 'cat')) == owed(c))]
+
+
+def send_ensures(c):
+    b = sbuf_of(c)
+    return [('everything owed is on the wire, in order', c.g('wire') == owed(c)),
+            ('the send buffer is empty', z3.And(c.f(b, 'cat') == E, b.t == sbuf_of(c, c.old).t, sbuf_rep(c)))]
+    # (the returned byte count is not part of the property statement and is left unconstrained)
+
+
+def send_interrupted(c):
+    b = sbuf_of(c)
+    return [('conservation on the exception path: wire ++ still buffered == wire0 ++ buffered0 ++ data',
+             z3.Concat(c.g('wire'), c.f(b, 'cat')) == owed(c)),
+            ('the send buffer object is kept', z3.And(b.t == sbuf_of(c, c.old).t, sbuf_rep(c)))]
+
+
+def send_refused(c):
+    b = sbuf_of(c)
+    return [('ValueError only for non-zero flags', c.a('flags') != 0),
+            ('nothing sent, nothing buffered', z3.And(c.g('wire') == c.og('wire'), b.t == sbuf_of(c, c.old).t,
+                                                      c.f(b, 'cat') == c.f(sbuf_of(c, c.old), 'cat', c.old), sbuf_rep(c)))]
+
+
+SEND_MOD = lambda c: [('BytesList', 'elems'), ('BytesList', 'len'), ('BytesList', 'cat')]  # noqa: E731
+send = Contract('BufferedSocket.send', setup=send_setup, requires=send_req, ensures=send_ensures,
+                raises={'Timeout': send_interrupted, 'OSError': send_interrupted, 'ValueError': send_refused},
+                modifies=SEND_MOD, loops={0: Loop(send_inv, heap=[('BytesList', 'elems'), ('BytesList', 'cat')], ghost=['wire'])},
+                returns=lambda c: SInt(c.st.fresh.const('nsent', z3.IntSort())), variants=['timeout', 'notimeout'])
+send.ghost_mod = ['wire']
+
+
+def flush_setup(eng, st, variant):
+    d = send_setup(eng, st, variant)
+    return dict(self=d['self'])
+
+
+def flush_ensures(c):
+    b = sbuf_of(c)
+    return [('everything buffered is on the wire, in order', c.g('wire') == owed(c, False)),
+            ('the send buffer is empty', z3.And(c.f(b, 'cat') == E, b.t == sbuf_of(c, c.old).t, sbuf_rep(c)))]
+
+
+def flush_interrupted(c):
+    b = sbuf_of(c)
+    return [('conservation on the exception path: wire ++ still buffered == wire0 ++ buffered0',
+             z3.Concat(c.g('wire'), c.f(b, 'cat')) == owed(c, False)),
+            ('the send buffer object is kept', z3.And(b.t == sbuf_of(c, c.old).t, sbuf_rep(c)))]
+
+
+flush = Contract('BufferedSocket.flush', setup=flush_setup, requires=send_req, ensures=flush_ensures,
+                 raises={'Timeout': flush_interrupted, 'OSError': flush_interrupted}, modifies=SEND_MOD, variants=['timeout'])
+flush.ghost_mod = ['wire']
+
+
+def buffer_setup(eng, st, variant):
+    d = send_setup(eng, st, variant)
+    return dict(self=d['self'], data=d['data'])
+
+
+def buffer_ensures(c):
+    b = sbuf_of(c)
+    return [('data is appended to what is buffered', z3.And(c.f(b, 'cat') == z3.Concat(c.f(sbuf_of(c, c.old), 'cat', c.old), c.a('data')),
+                                                           b.t == sbuf_of(c, c.old).t)),
+            ('nothing is sent', c.g('wire') == c.og('wire'))]
+
+
+buffer = Contract('BufferedSocket.buffer', setup=buffer_setup, requires=send_req, ensures=buffer_ensures, modifies=SEND_MOD,
+                  variants=['timeout'])
+sendall = Contract('BufferedSocket.sendall', setup=send_setup, requires=send_req, ensures=send_ensures,
+                   raises={'Timeout': send_interrupted, 'OSError': send_interrupted, 'ValueError': send_refused},
+                   modifies=SEND_MOD, returns=lambda c: SInt(c.st.fresh.const('nsent', z3.IntSort())), variants=['timeout'])
+sendall.ghost_mod = ['wire']
+for _c in [send, flush, buffer, sendall]:
+    CONTRACTS[_c.qualname] = _c
+FUNCS += [('BufferedSocket.send', ['timeout', 'notimeout']), ('BufferedSocket.flush', ['timeout']),
+          ('BufferedSocket.buffer', ['timeout']), ('BufferedSocket.sendall', ['timeout'])]
